@@ -1,0 +1,88 @@
+//go:build verif && (verif_all || verif_c17)
+// +build verif
+// +build verif_all verif_c17
+
+package gocql
+
+// Verification hooks (build tag `verif`) for the third strengthening of C17: concurrent pool-level operations
+// on one host (the session's entry points that end in policyConnPool.addHost / removeHost / Close, and the
+// locks these take, so that a harness can park racing callers on them and release them in a chosen order)
+// and the refreshDebouncer protocol with pending refreshNow waiters. Add-only thin wrappers, no logic.
+
+import "time"
+
+// VerifDebouncer is a handle on one refreshDebouncer.
+type VerifDebouncer struct{ d *refreshDebouncer }
+
+// VerifNewRefreshDebouncer is newRefreshDebouncer.
+func VerifNewRefreshDebouncer(interval time.Duration, fn func() error) *VerifDebouncer {
+	return &VerifDebouncer{d: newRefreshDebouncer(interval, fn)}
+}
+
+// VerifSessionRingRefresher is the session's ring refresh debouncer.
+func VerifSessionRingRefresher(s *Session) *VerifDebouncer { return &VerifDebouncer{d: s.ringRefresher} }
+
+// RefreshNow is refreshDebouncer.refreshNow.
+func (v *VerifDebouncer) RefreshNow() <-chan error { return v.d.refreshNow() }
+
+// Debounce is refreshDebouncer.debounce.
+func (v *VerifDebouncer) Debounce() { v.d.debounce() }
+
+// Stop is refreshDebouncer.stop.
+func (v *VerifDebouncer) Stop() { v.d.stop() }
+
+// State reads, under the debouncer's mutex: stopped, the number of listeners of the pending broadcaster
+// (-1: no broadcaster pending), and whether refreshNowCh holds a token.
+func (v *VerifDebouncer) State() (stopped bool, listeners int, token bool) {
+	v.d.mu.Lock()
+	defer v.d.mu.Unlock()
+	listeners = -1
+	if b := v.d.broadcaster; b != nil {
+		b.mu.Lock()
+		listeners = len(b.listeners)
+		b.mu.Unlock()
+	}
+	return v.d.stopped, listeners, len(v.d.refreshNowCh) > 0
+}
+
+// Lock / Unlock take and release the debouncer's mutex (parks stop(), refreshNow(), debounce() and the flusher's
+// critical section).
+func (v *VerifDebouncer) Lock()   { v.d.mu.Lock() }
+func (v *VerifDebouncer) Unlock() { v.d.mu.Unlock() }
+
+// VerifSessionRefreshRing is Session.refreshRing (what controlConn.reconnect calls): blocks until the refresh it
+// asked for has run or the debouncer was stopped.
+func VerifSessionRefreshRing(s *Session) error { return s.refreshRing() }
+
+// VerifRingDescriberLock / Unlock take and release the mutex ringDescriber.GetHosts runs under (parks a ring
+// refresh inside its refresh function).
+func VerifRingDescriberLock(s *Session)   { s.hostSource.mu.Lock() }
+func VerifRingDescriberUnlock(s *Session) { s.hostSource.mu.Unlock() }
+
+// VerifPoolMapLock / Unlock take and release policyConnPool.mu (write).
+func VerifPoolMapLock(s *Session)   { s.pool.mu.Lock() }
+func VerifPoolMapUnlock(s *Session) { s.pool.mu.Unlock() }
+
+// VerifHostInfoLock / Unlock take and release HostInfo.mu (write): parks every reader of the host's fields.
+func VerifHostInfoLock(h *HostInfo)   { h.mu.Lock() }
+func VerifHostInfoUnlock(h *HostInfo) { h.mu.Unlock() }
+
+// VerifPoolAddHost is policyConnPool.addHost (what the reconnect ticker calls for a host that is not up, and
+// what startPoolFill calls first).
+func VerifPoolAddHost(s *Session, h *HostInfo) { s.pool.addHost(h) }
+
+// VerifStartPoolFill is Session.startPoolFill (UP event after its delay, ring refresh, control connection setup).
+func VerifStartPoolFill(s *Session, h *HostInfo) { s.startPoolFill(h) }
+
+// VerifPoolRemoveHost is policyConnPool.removeHost.
+func VerifPoolRemoveHost(s *Session, h *HostInfo) { s.pool.removeHost(h.HostID()) }
+
+// VerifPoolClose is policyConnPool.Close (the first thing Session.Close does).
+func VerifPoolClose(s *Session) { s.pool.Close() }
+
+// VerifPoolCount is the number of pools registered in the session's policyConnPool.
+func VerifPoolCount(s *Session) int {
+	s.pool.mu.RLock()
+	defer s.pool.mu.RUnlock()
+	return len(s.pool.hostConnPools)
+}
